@@ -240,14 +240,19 @@ Proof.
   revert s. induction fuel as [|f IH]; intros s Hs Hf; [lia|].
   cbn [lq_iter]. destruct (Z.eqb_spec s hi) as [->|Hne].
   - replace (hi - hi) with 0 by lia. cbn [Z.to_nat zseq map]. unfold entry.
-    rewrite <- RM_hi. rewrite prob_exact by (try lia; apply N.lt_le_incl, LN_strict; lia). reflexivity.
+    rewrite <- RM_hi. rewrite prob_exact by (try lia; apply N.lt_le_incl, LN_strict; lia).
+    pose proof (LN_strict hi (hi + 1) ltac:(lia) ltac:(lia) ltac:(lia)) as Hst.
+    destruct (N.eqb_spec (LN (hi + 1) - LN hi) 0); [lia|reflexivity].
   - unfold caddS. rewrite chkS_in by (generalize Hlo Hhi; unfold in_sym; lia).
     rewrite lcum_exact by lia.
+    pose proof (LN_strict s (s + 1) ltac:(lia) ltac:(lia) ltac:(lia)) as Hst.
+    assert (Hp : wsubP c (LN (s + 1)) (LN s) = (LN (s + 1) - LN s)%N).
+    { rewrite <- (RM_mid s) at 1 by lia. apply prob_exact; lia. }
+    rewrite Hp.
+    destruct (N.eqb_spec (LN (s + 1) - LN s) 0); [lia|].
     rewrite IH by lia.
     replace (Z.to_nat (hi - s)) with (S (Z.to_nat (hi - (s + 1)))) by lia.
-    cbn [zseq map]. unfold entry at 3.
-    rewrite <- (RM_mid s) at 1 by lia.
-    rewrite prob_exact by (try lia; apply N.lt_le_incl, LN_strict; lia). reflexivity.
+    cbn [zseq map]. unfold entry at 3. reflexivity.
 Qed.
 
 Definition ideal_table : list (Z * N * N) := map entry (zseq lo (S (Z.to_nat (hi - lo)))).
